@@ -227,7 +227,7 @@ def compare(found, registered, key, kind, id_prefix, label_extra, label_missing,
     out = []
     fk = {key(f): f for f in found}
     extra = sorted(k for k in fk if k not in registered)
-    out.append({'id': id_prefix + ':no-unregistered', 'kind': kind, 'ok': not extra,
+    out.append({'id': id_prefix + ':no-unregistered', 'kind': kind, 'ok': not extra, 'definite': True,
                 'label': label_extra, 'detail': 'unregistered: %r' % ([fk[k] for k in extra],)})
     missing = sorted(k for k in registered if k not in fk)
     out.append({'id': id_prefix + ':registered-present', 'kind': kind, 'ok': None if missing else True,
